@@ -301,19 +301,16 @@ Proof.
   - rewrite IH. f_equal. lia.
 Qed.
 
-Definition undoes (k : N) (o : lop) : Prop :=
-  match o with LAdd k' _ => k' = k | LDelete k' => k' = k | LClear => True | _ => False end.
-
 Lemma last_touch_spec hist : forall k t j,
   last_touch hist k = Some (t, j) ->
   nth_error hist (N.to_nat j) = Some (LAdd k t)
-  /\ forall j' o, (N.to_nat j < j')%nat -> nth_error hist j' = Some o -> ~ undoes k o.
+  /\ forall j' o, (N.to_nat j < j')%nat -> nth_error hist j' = Some o -> undoes k o = false.
 Proof.
   unfold last_touch. induction hist as [|o hist IH] using rev_ind; intros k t j; [cbn; discriminate|].
   rewrite ghost_app. cbn [ghost]. rewrite N.add_0_l. set (g := ghost [] 0 hist) in *.
-  assert (Hkeep : lookT k g = Some (t, j) -> ~ undoes k o ->
+  assert (Hkeep : lookT k g = Some (t, j) -> undoes k o = false ->
             nth_error (hist ++ [o]) (N.to_nat j) = Some (LAdd k t)
-            /\ forall j' o', (N.to_nat j < j')%nat -> nth_error (hist ++ [o]) j' = Some o' -> ~ undoes k o').
+            /\ forall j' o', (N.to_nat j < j')%nat -> nth_error (hist ++ [o]) j' = Some o' -> undoes k o' = false).
   { intros Hl Hno. destruct (IH k t j Hl) as [Hn Hlater].
     assert (Hj : (N.to_nat j < length hist)%nat) by (apply nth_error_Some; congruence).
     split; [rewrite nth_error_app1 by exact Hj; exact Hn|].
@@ -329,12 +326,12 @@ Proof.
       * rewrite nth_error_app2 by lia. rewrite Nat.sub_diag. reflexivity.
       * intros j' o' Hlt Hnth. assert (j' < length (hist ++ [LAdd k now]))%nat by (apply nth_error_Some; congruence).
         rewrite app_length in *. cbn [length] in *. lia.
-    + rewrite lookT_cons_ne, lookT_delT_ne by exact Hne. intros Hl. apply Hkeep; [exact Hl|]. cbn. congruence.
-  - intros Hl. apply Hkeep; [exact Hl | cbn; tauto].
+    + rewrite lookT_cons_ne, lookT_delT_ne by exact Hne. intros Hl. apply Hkeep; [exact Hl|]. cbn [undoes]. apply N.eqb_neq. congruence.
+  - intros Hl. apply Hkeep; [exact Hl | reflexivity].
   - destruct (N.eq_dec k k') as [<-|Hne].
     + rewrite lookT_delT_eq. discriminate.
-    + rewrite lookT_delT_ne by exact Hne. intros Hl. apply Hkeep; [exact Hl|]. cbn. congruence.
-  - intros Hl. apply Hkeep; [exact Hl | cbn; tauto].
+    + rewrite lookT_delT_ne by exact Hne. intros Hl. apply Hkeep; [exact Hl|]. cbn [undoes]. apply N.eqb_neq. congruence.
+  - intros Hl. apply Hkeep; [exact Hl | reflexivity].
   - cbn. discriminate.
 Qed.
 
